@@ -71,6 +71,18 @@ impl<'a> DocGen<'a> {
                     for _ in 0..self.rng.range(1, 3) {
                         lines.push(self.line());
                     }
+                    // a link whose text wraps across two lines of the paragraph
+                    if self.rng.chance(1, 3) {
+                        self.n += 1;
+                        let dest = format!("t{}", self.n);
+                        self.dests.push(dest.clone());
+                        let (a, b, c, d) = (self.word(), self.word(), self.word(), self.word());
+                        lines.push(format!("{} [{}", a, b));
+                        lines.push(format!("{}]({}) {}", c, dest, d));
+                        if self.rng.chance(1, 2) {
+                            lines.push(self.line());
+                        }
+                    }
                 }
                 3 | 4 => {
                     let ordered = self.rng.chance(1, 2);
@@ -272,7 +284,7 @@ impl Check for C13 {
                         if got_r != want_r && shown < 3 {
                             shown += 1;
                             let src = &text[l.range.clone()];
-                            let shape = if !l.title.is_empty() { "shape:title".to_string() } else if src[..src.find("](").unwrap_or(0)].contains('*') { "shape:markup".to_string() } else { locus.clone() };
+                            let shape = if src.contains('\n') { "shape:wrapped".to_string() } else if !l.title.is_empty() { "shape:title".to_string() } else if src[..src.find("](").unwrap_or(0)].contains('*') { "shape:markup".to_string() } else { locus.clone() };
                             rep.violate("rename-range-not-destination", &shape, format!("link `{}`: range {:?}, destination span {:?}", &text[l.range.clone()], got_r, want_r), replay.clone());
                         }
                         if pr["placeholder"].as_str() != Some(l.dest.as_str()) && shown < 3 {
